@@ -490,7 +490,26 @@ func (c *Ctx) edge(fs *FState, from, to *ssa.BasicBlock) []*FState {
 			}
 			fs.lastChecked = fs.st.pc[len(fs.st.pc)-1]
 		}
-		if iters[h] > c.unwind {
+		var tail *Term
+		if len(fs.st.pc) > 0 {
+			tail = fs.st.pc[len(fs.st.pc)-1]
+		}
+		if iters[h] == 0 {
+			if fs.loopTail == nil {
+				fs.loopTail = map[int]*Term{}
+			} else {
+				nt := make(map[int]*Term, len(fs.loopTail)+1)
+				for k, v := range fs.loopTail {
+					nt[k] = v
+				}
+				fs.loopTail = nt
+			}
+			fs.loopTail[h] = tail
+		}
+		// the unwinding bound applies to loops whose continuation depends on symbolic data; a loop that has run
+		// without adding to the path condition is concrete (e.g. filling a 256-entry table) and only capped
+		concrete := fs.loopTail != nil && fs.loopTail[h] == tail
+		if (iters[h] > c.unwind && !concrete) || iters[h] > 2000000 {
 			if c.feasible(fs.st, c.tt.T) {
 				c.inconclusive(fmt.Sprintf("UNWIND bound %d reached in %s", c.unwind, fi.fn.String()))
 			}
